@@ -181,7 +181,10 @@ def model_case(c, dump=True):
 
 # ------------------------------------------------------------------------------ parsing
 def fh(t):
-    return float.fromhex(t)
+    try:
+        return float.fromhex(t)
+    except ValueError:      # output cut short by a crash of the implementation
+        return float("nan")
 
 
 def parse_hills(tokens, nd):
@@ -443,19 +446,40 @@ def oracle(c, impl, traj):
 
 
 # ------------------------------------------------------------------------------ findings replayed on every run
-WITNESSES = [
-    # (name, forced generator settings are not used: explicit scenarios)
-]
+def _var(lower=0.0, nx=8, w=1.0, sigma=1.0, expand=False):
+    return {"w": w, "nx": nx, "periodic": False, "gper": False, "expand": expand, "hlo": False, "hup": False,
+            "lower": lower, "upper": lower + w * nx, "sigma": sigma}
 
 
-def witness_outside():
-    """the witness of C05_outside_grid_refuted: one hill 1.5 bins inside the lower edge, gaussianSigmas = 1 bin,
-    then the variable steps 1/4 bin outside the grid"""
-    v = {"w": 1.0, "nx": 8, "periodic": False, "gper": False, "expand": False, "hlo": False, "hup": False,
-         "lower": 0.0, "upper": 8.0, "sigma": 1.0}
-    return {"id": "w_outside", "vars": [v], "use_grids": True, "sig_mode": True, "hw": 0.0, "W": 1.0, "freq": 1,
-            "keep": False, "wt": False, "bt": 300.0, "stepzero": False, "gfreq_explicit": False, "gfreq": 1, "it0": 0,
-            "events": [(False, [1.5]), (False, [1.5]), (False, [-0.25])]}
+def _cfg(cid, vars_, events, **kw):
+    c = {"id": cid, "vars": vars_, "use_grids": True, "sig_mode": False, "hw": 2.0, "W": 1.0, "freq": 1,
+         "keep": False, "wt": False, "bt": 300.0, "stepzero": False, "gfreq_explicit": False, "gfreq": 1, "it0": 0,
+         "events": [(False, list(z)) for z in events]}
+    c.update(kw)
+    if not c["gfreq_explicit"]:
+        c["gfreq"] = c["freq"]
+    return c
+
+
+def witnesses():
+    """fixed scenarios replayed on every run: the witnesses of the _refuted theorems and one per finding"""
+    return [
+        # C05_outside_grid_refuted (w_cfg, [w_i1], w_i2 preceded by two idle steps): gaussianSigmas = 1 bin, one hill
+        # 1.5 bins inside the lower edge at step 2, then a quarter of a bin outside at step 3
+        _cfg("w_outside", [_var()], [[1.5], [1.5], [1.5], [-0.25]], sig_mode=True, hw=0.0, freq=2),
+        # C05_wt_deposit_outside_grid_refuted, in two dimensions where the out-of-range index (3,-1) has the
+        # address of bin (2,7): the hill at step 2 gets the full hillWeight although it sits on the hill of step 1
+        _cfg("w_wt_outside", [_var(), _var()], [[3.5, 0.5], [3.5, 0.5], [3.5, -0.25]], wt=True),
+        # the u_cfg witness itself (one variable; what is read at data[-1] is whatever precedes the array)
+        _cfg("w_wt_outside_1d", [_var()], [[0.5], [0.5], [-0.25]], wt=True),
+        # well-tempered, gridsUpdateFrequency 2 > newHillFrequency 1: at step 2 the hill of step 1 is not yet
+        # on the grid and is ignored by the well-tempered factor
+        _cfg("w_wt_unprojected", [_var()], [[3.5], [3.5], [3.5]], wt=True, gfreq_explicit=True, gfreq=2),
+        # a hill deposited outside the grid and not yet projected is in hills_off_grid and after new_hills_begin
+        _cfg("w_double_count", [_var()], [[3.5], [-0.25]], gfreq_explicit=True, gfreq=2),
+        # expandBoundaries with gaussianSigmas (buffer of one bin): the bin added at step 2 never receives the hill of step 1
+        _cfg("w_expand", [_var(expand=True)], [[1.5], [1.5], [0.5], [-0.5]], sig_mode=True, hw=0.0),
+    ]
 
 
 def run_scenarios(run, exe, model, cs, d, dump=True):
@@ -470,7 +494,10 @@ def run_scenarios(run, exe, model, cs, d, dump=True):
         rcv, o, ev = V.sh([exe, sc], cwd=d, timeout=120)
         os.remove(sc)
         nd = len(c["vars"])
-        impl = parse_impl(o, nd) if "CONFIG err=ok" in o else None
+        try:
+            impl = parse_impl(o, nd) if "CONFIG err=ok" in o else None
+        except (ValueError, IndexError, KeyError):
+            impl = []
         mo = parse_model(mout[k], nd) if k < len(mout) else None
         res.append((c, impl, mo, txt, rcv, o, parse_traj(o, nd)))
     return res
@@ -562,7 +589,7 @@ def check(run):
     exe = exes["c05sim"]
     d = V.scratch("C05")
     cs = corpus_cases()
-    cs.append(witness_outside())
+    cs += witnesses()
     n = 160 if quick else 4000
     cs += [gen_scn(r, k) for k in range(n)]
     nsample = 0
